@@ -4,24 +4,37 @@ From RJ Require Import Base.Prelude Base.OrderedPlan Model.Settings Model.Core M
 Definition excl_incl (ex : list path) (p : path) : bool := negb (existsb (path_eqb p) ex).
 Definition now_far (k : N) : Z := (4000000000000000000 + Z.of_N k)%Z.
 
-Fixpoint chunk_fuel (fuel n : nat) (s : str) : list str :=
+(* doer.rs handle_get_file_contents on a regular file (every read fills its buffer until the end of the
+   file): the first buffer is 4 KiB, each full read doubles the next one up to 4 MiB, and the piece that
+   reaches the end of the file is the one sent with more_to_follow = false. *)
+Definition buf_size (k : nat) : nat := 4096 * 2 ^ (Nat.min k 10).
+Fixpoint chunk_grow (fuel k : nat) (s : str) : list str :=
   match fuel with
   | O => [s]
-  | S fuel' => if Nat.leb (length s) n then [s] else firstn n s :: chunk_fuel fuel' n (skipn n s)
+  | S fuel' => let n := buf_size k in
+               if Nat.leb (length s) n then [s] else firstn n s :: chunk_grow fuel' (S k) (skipn n s)
   end.
-Definition chunk_every (n : nat) (s : str) : list str := chunk_fuel (length s) (Nat.max n 1) s.
+Definition chunk_real (s : str) : list str := chunk_grow (length s) 0 s.
+
+(* the initial destination world: nothing open, nothing logged; [fw] = indices of failing writes *)
+Definition world (D : fs) (a : anc) (fw : list N) : dstate := mkD D a 0 None [] (mkX None fw 0).
 
 Definition run_top (cfg : config) (S D : fs) (a : anc) (ans : list answer) (bits : list bool)
            (ex : list path) (ft : faults) : result :=
   let incl := excl_incl ex in
   let ls := list_fs now_far incl normalize_unix S in
   let ld := list_fs now_far incl normalize_unix D in
-  sync_one now_far normalize_unix (chunk_every 4096) cfg S (mkD D a 0 None []) ans bits ls ld ft.
+  sync_one now_far normalize_unix chunk_real cfg S (world D a []) ans bits ls ld ft.
 
 (* with explicit listing orders (scripted driver: the harness dictates the order of arrival) *)
 Definition run_orders (cfg : config) (S D : fs) (a : anc) (ans : list answer) (bits : list bool)
            (ls ld : list (path * entry)) (ft : faults) : result :=
-  sync_one now_far normalize_unix (chunk_every 4096) cfg S (mkD D a 0 None []) ans bits ls ld ft.
+  sync_one now_far normalize_unix chunk_real cfg S (world D a []) ans bits ls ld ft.
+
+(* with write faults as well *)
+Definition run_orders_w (cfg : config) (S D : fs) (a : anc) (fw : list N) (ans : list answer) (bits : list bool)
+           (ls ld : list (path * entry)) (ft : faults) : result :=
+  sync_one now_far normalize_unix chunk_real cfg S (world D a fw) ans bits ls ld ft.
 
 Definition listing_top (ex : list path) (f : fs) : list (path * entry) :=
   list_fs now_far (excl_incl ex) normalize_unix f.
